@@ -884,3 +884,826 @@ Proof.
   destruct (nth_error ids (Z.to_nat x)) as [k|] eqn:E; [|left; reflexivity].
   right. exists k. split; [reflexivity|]. eapply nth_error_In. exact E.
 Qed.
+
+(* ---------- Funder.Fund ---------- *)
+
+Section Funder.
+  Variable v : hid -> bool.
+  Variable reg : registry.
+  Variables e ne : list key.       (* egoisticLedgers, nonEgoisticLedgers *)
+  Hypothesis nd : NoDup (e ++ ne).
+  Let ts1 := tasks_of reg ne.
+  Let ts2 := tasks_of reg e.
+
+  Lemma e_ne_disjoint k : In k e -> In k ne -> False.
+  Proof.
+    intros H1 H2. clear ts1 ts2. induction e as [|x e' IH]; [contradiction|].
+    cbn [app] in nd. inversion nd as [|? ? Hx ND]; subst. destruct H1 as [->|H1].
+    - apply Hx. apply in_or_app. right. exact H2.
+    - apply IH; assumption.
+  Qed.
+
+  Definition c2s (k : key) (s : fstate) : nat :=
+    match f_p2 s with None => 0 | Some p2 => creg k (d_run p2 ++ d_done p2) end.
+  Definition c2e (k : key) (s : fstate) : nat :=
+    match f_p2 s with None => 0 | Some p2 => creg k (d_done p2) end.
+
+  Definition all_ended (ks : list key) (tr : list event) : Prop :=
+    forall k, In k ks -> exists h, reg_lookup reg k = Some h /\ v h = true /\ In (EEnd MFund k h true) tr.
+
+  Record finv (s : fstate) (tr : list event) : Prop := mkFinv {
+    fi_d1 : dinv v ts1 (f_p1 s);
+    fi_d2 : match f_p2 s with None => True | Some p2 => dinv v ts2 p2 /\ d_ret (f_p1 s) = Some None end;
+    fi_ret : match f_ret s with
+             | None => match f_p2 s with None => d_ret (f_p1 s) = None | Some p2 => d_ret p2 = None end
+             | Some OOk => exists p2, f_p2 s = Some p2 /\ d_ret p2 = Some None
+             | Some (OErr er) => (f_p2 s = None /\ d_ret (f_p1 s) = Some (Some er)) \/
+                                 (exists p2, f_p2 s = Some p2 /\ d_ret p2 = Some (Some er))
+             | Some _ => False
+             end;
+    fi_starts : forall k, count_start k tr = creg k (d_run (f_p1 s) ++ d_done (f_p1 s)) + c2s k s;
+    fi_ends : forall k, count_end k tr = creg k (d_done (f_p1 s)) + c2e k s;
+    fi_legit : Forall (ev_legit MFund reg v (e ++ ne)) tr;
+    fi_log1 : done_logged MFund v (f_p1 s) tr;
+    fi_log2 : match f_p2 s with None => True | Some p2 => done_logged MFund v p2 tr end;
+    fi_nret : countb is_ret tr = if f_ret s then 1 else 0;
+    fi_retev : forall o, In (ERet o) tr -> f_ret s = Some o;
+    fi_ego : forall pre post m' k h, tr = pre ++ EStart m' k h :: post -> In k e -> all_ended ne pre;
+    fi_sync : forall pre post, tr = pre ++ ERet OOk :: post -> all_ended (e ++ ne) pre }.
+
+  Lemma finv_init : finv (f_init reg ne) [].
+  Proof.
+    unfold f_init. constructor; cbn [f_p1 f_p2 f_ret d_init d_new d_run d_done d_ret app].
+    - apply dinv_init.
+    - exact I.
+    - reflexivity.
+    - intro k. reflexivity.
+    - intro k. reflexivity.
+    - constructor.
+    - intros k h [].
+    - exact I.
+    - reflexivity.
+    - intros o [].
+    - intros pre post m' k h H. destruct pre; discriminate.
+    - intros pre post H. destruct pre; discriminate.
+  Qed.
+
+  Lemma fstep_F1_task s l : l <> SRecv ->
+    fstep v reg e s (F1 l) =
+    (mkF (fst (dstep MFund v (f_p1 s) l)) (f_p2 s) (f_ret s), snd (dstep MFund v (f_p1 s) l)).
+  Proof.
+    intro H. destruct l; [| |congruence]; cbn [fstep]; destruct (dstep MFund v (f_p1 s) _); reflexivity.
+  Qed.
+
+  Lemma fstep_F2_task s l : l <> SRecv ->
+    fstep v reg e s (F2 l) =
+    match f_p2 s with
+    | None => (s, [])
+    | Some p2 => (mkF (f_p1 s) (Some (fst (dstep MFund v p2 l))) (f_ret s), snd (dstep MFund v p2 l))
+    end.
+  Proof.
+    intro H. destruct l; [| |congruence]; cbn [fstep]; destruct (f_p2 s) as [p2|]; try reflexivity;
+      destruct (dstep MFund v p2 _); reflexivity.
+  Qed.
+
+  Lemma ne_all_ended p1 tr : dinv v ts1 p1 -> done_logged MFund v p1 tr -> d_ret p1 = Some None ->
+    all_ended ne tr.
+  Proof. intros ID HL ER k Hk. exact (ok_all MFund v reg ne p1 tr ID HL ER k Hk). Qed.
+
+  Lemma e_all_ended p2 tr : dinv v ts2 p2 -> done_logged MFund v p2 tr -> d_ret p2 = Some None ->
+    all_ended e tr.
+  Proof. intros ID HL ER k Hk. exact (ok_all MFund v reg e p2 tr ID HL ER k Hk). Qed.
+
+  Lemma dev_ok_in_new ids p x : dinv v (tasks_of reg ids) p -> dev_ok MFund v p x ->
+    ev_legit MFund reg v ids x /\ (forall m' k h, x = EStart m' k h -> In k ids) /\ is_ret x = false.
+  Proof.
+    intros ID H. split; [exact (dev_ok_legit MFund v reg ids p x ID H)|]. split.
+    - intros m' k h ->. pose proof (dev_ok_legit MFund v reg ids p _ ID H) as HL.
+      cbn [ev_legit] in HL. tauto.
+    - destruct x; cbn [dev_ok] in H; [reflexivity|reflexivity|contradiction].
+  Qed.
+
+  (* a step of a goroutine of phase 1 *)
+  Lemma finv_F1_task s tr l : l <> SRecv -> finv s tr ->
+    finv (fst (fstep v reg e s (F1 l))) (tr ++ snd (fstep v reg e s (F1 l))).
+  Proof.
+    intros NR [D1 D2 FR HS HE HLg L1 L2 HN HRe HEgo HSy]. rewrite (fstep_F1_task s l NR). cbn [fst snd].
+    pose proof (dstep_task_ret MFund v (f_p1 s) l NR) as ER.
+    pose proof (dstep_events MFund v (f_p1 s) l) as HEV.
+    set (p1' := fst (dstep MFund v (f_p1 s) l)) in *. set (ev := snd (dstep MFund v (f_p1 s) l)) in *.
+    constructor; cbn [f_p1 f_p2 f_ret]; unfold c2s, c2e; cbn [f_p2].
+    - apply dinv_step. exact D1.
+    - destruct (f_p2 s) as [p2|]; [|exact I]. rewrite ER. exact D2.
+    - rewrite ER. exact FR.
+    - intro k. unfold count_start. rewrite countb_app. fold (count_start k tr) (count_start k ev).
+      unfold ev, p1'. rewrite <- (dstep_starts MFund v (f_p1 s) l k), HS. unfold c2s. lia.
+    - intro k. unfold count_end. rewrite countb_app. fold (count_end k tr) (count_end k ev).
+      unfold ev, p1'. rewrite <- (dstep_ends MFund v (f_p1 s) l k), HE. unfold c2e. lia.
+    - apply Forall_app. split; [exact HLg|]. destruct HEV as [->|[x [-> Hx]]]; [constructor|].
+      constructor; [|constructor]. apply (ev_legit_incl MFund reg v ne); [apply incl_appr, incl_refl|].
+      exact (proj1 (dev_ok_in_new ne _ x D1 Hx)).
+    - apply done_logged_step. exact L1.
+    - destruct (f_p2 s) as [p2|]; [|exact I]. apply done_logged_mono. exact L2.
+    - rewrite countb_app, HN. destruct HEV as [->|[x [-> Hx]]]; [rewrite countb_nil; lia|].
+      rewrite countb_cons, countb_nil. rewrite (proj2 (proj2 (dev_ok_in_new ne _ x D1 Hx))). lia.
+    - intros o Ho. apply in_app_or in Ho. destruct Ho as [Ho|Ho]; [auto|].
+      destruct HEV as [E|[x [E Hx]]]; rewrite E in Ho; [contradiction|]. destruct Ho as [->|[]].
+      pose proof (proj2 (proj2 (dev_ok_in_new ne _ _ D1 Hx))). discriminate.
+    - intros pre post m' k h Hsp Hk. destruct HEV as [E|[x [E Hx]]]; rewrite E in Hsp.
+      + rewrite app_nil_r in Hsp. eapply HEgo; eassumption.
+      + apply app_single_split in Hsp. destruct Hsp as [[_ [_ Hx']]|[post' [_ Htr]]].
+        * exfalso. apply (e_ne_disjoint k Hk).
+          exact (proj1 (proj2 (dev_ok_in_new ne _ x D1 Hx)) m' k h (eq_sym Hx')).
+        * eapply HEgo; eassumption.
+    - intros pre post Hsp. destruct HEV as [E|[x [E Hx]]]; rewrite E in Hsp.
+      + rewrite app_nil_r in Hsp. eapply HSy; eassumption.
+      + apply app_single_split in Hsp. destruct Hsp as [[_ [_ Hx']]|[post' [_ Htr]]].
+        * pose proof (proj2 (proj2 (dev_ok_in_new ne _ x D1 Hx))) as Hr. rewrite <- Hx' in Hr. discriminate.
+        * eapply HSy; eassumption.
+  Qed.
+
+  (* a step of a goroutine of phase 2 *)
+  Lemma finv_F2_task s tr l : l <> SRecv -> finv s tr ->
+    finv (fst (fstep v reg e s (F2 l))) (tr ++ snd (fstep v reg e s (F2 l))).
+  Proof.
+    intros NR IV. rewrite (fstep_F2_task s l NR).
+    destruct (f_p2 s) as [p2|] eqn:EP; [|cbn [fst snd]; rewrite app_nil_r; exact IV].
+    destruct IV as [D1 D2 FR HS HE HLg L1 L2 HN HRe HEgo HSy]. rewrite EP in *. cbn [fst snd].
+    destruct D2 as [D2 R1].
+    pose proof (dstep_task_ret MFund v p2 l NR) as ER.
+    pose proof (dstep_events MFund v p2 l) as HEV.
+    set (p2' := fst (dstep MFund v p2 l)) in *. set (ev := snd (dstep MFund v p2 l)) in *.
+    constructor; cbn [f_p1 f_p2 f_ret]; unfold c2s, c2e; cbn [f_p2].
+    - exact D1.
+    - split; [apply dinv_step; exact D2|exact R1].
+    - rewrite ER. destruct (f_ret s) as [[| | |er|]|]; try assumption.
+      + destruct FR as [q [Hq1 Hq2]]. injection Hq1 as <-. exists p2'. split; [reflexivity|]. rewrite ER. exact Hq2.
+      + destruct FR as [[Hq _]|[q [Hq1 Hq2]]]; [discriminate|]. injection Hq1 as <-.
+        right. exists p2'. split; [reflexivity|]. rewrite ER. exact Hq2.
+    - intro k. unfold count_start. rewrite countb_app. fold (count_start k tr) (count_start k ev).
+      unfold ev, p2'. rewrite <- (dstep_starts MFund v p2 l k), HS. unfold c2s. rewrite EP. lia.
+    - intro k. unfold count_end. rewrite countb_app. fold (count_end k tr) (count_end k ev).
+      unfold ev, p2'. rewrite <- (dstep_ends MFund v p2 l k), HE. unfold c2e. rewrite EP. lia.
+    - apply Forall_app. split; [exact HLg|]. destruct HEV as [->|[x [-> Hx]]]; [constructor|].
+      constructor; [|constructor]. apply (ev_legit_incl MFund reg v e); [apply incl_appl, incl_refl|].
+      exact (proj1 (dev_ok_in_new e _ x D2 Hx)).
+    - apply done_logged_mono. exact L1.
+    - apply done_logged_step. exact L2.
+    - rewrite countb_app, HN. destruct HEV as [->|[x [-> Hx]]]; [rewrite countb_nil; lia|].
+      rewrite countb_cons, countb_nil. rewrite (proj2 (proj2 (dev_ok_in_new e _ x D2 Hx))). lia.
+    - intros o Ho. apply in_app_or in Ho. destruct Ho as [Ho|Ho]; [auto|].
+      destruct HEV as [E|[x [E Hx]]]; rewrite E in Ho; [contradiction|]. destruct Ho as [->|[]].
+      pose proof (proj2 (proj2 (dev_ok_in_new e _ _ D2 Hx))). discriminate.
+    - intros pre post m' k h Hsp Hk. destruct HEV as [E|[x [E Hx]]]; rewrite E in Hsp.
+      + rewrite app_nil_r in Hsp. eapply HEgo; eassumption.
+      + apply app_single_split in Hsp. destruct Hsp as [[_ [-> _]]|[post' [_ Htr]]].
+        * exact (ne_all_ended (f_p1 s) tr D1 L1 R1).
+        * eapply HEgo; eassumption.
+    - intros pre post Hsp. destruct HEV as [E|[x [E Hx]]]; rewrite E in Hsp.
+      + rewrite app_nil_r in Hsp. eapply HSy; eassumption.
+      + apply app_single_split in Hsp. destruct Hsp as [[_ [_ Hx']]|[post' [_ Htr]]].
+        * pose proof (proj2 (proj2 (dev_ok_in_new e _ x D2 Hx))) as Hr. rewrite <- Hx' in Hr. discriminate.
+        * eapply HSy; eassumption.
+  Qed.
+
+  Lemma ret_ev_tail (tr : list event) (o : outcome) :
+    (forall k, count_start k (tr ++ [ERet o]) = count_start k tr) /\
+    (forall k, count_end k (tr ++ [ERet o]) = count_end k tr) /\
+    countb is_ret (tr ++ [ERet o]) = countb is_ret tr + 1.
+  Proof.
+    split; [|split]; intros; unfold count_start, count_end; rewrite countb_app, countb_cons, countb_nil;
+      cbn [is_start_of is_end_of is_ret]; lia.
+  Qed.
+
+  (* an iteration of the collecting loop of phase 1 (incl. the start of phase 2 / the error return) *)
+  Lemma finv_F1_recv s tr : finv s tr ->
+    finv (fst (fstep v reg e s (F1 SRecv))) (tr ++ snd (fstep v reg e s (F1 SRecv))).
+  Proof.
+    intro IV. cbn [fstep].
+    destruct (f_ret s) as [o|] eqn:EF; [cbn [fst snd]; rewrite app_nil_r; exact IV|].
+    destruct (f_p2 s) as [p2|] eqn:EP; [cbn [fst snd]; rewrite app_nil_r; exact IV|].
+    destruct IV as [D1 D2 FR HS HE HLg L1 L2 HN HRe HEgo HSy].
+    unfold c2s, c2e in HS, HE. rewrite EP in HS, HE, FR. rewrite EF in FR, HN. clear D2 L2.
+    destruct (dstep_recv_tasks MFund v (f_p1 s)) as [E1 [E2 [E3 E4]]].
+    pose proof (dinv_step MFund v ts1 (f_p1 s) SRecv D1) as D1'.
+    set (p1' := fst (dstep MFund v (f_p1 s) SRecv)) in *.
+    assert (L1' : done_logged MFund v p1' tr) by (unfold done_logged; rewrite E3; exact L1).
+    destruct (d_ret p1') as [[er|]|] eqn:ER'; cbn [fst snd].
+    - (* return err *)
+      destruct (ret_ev_tail tr (OErr er)) as [TS [TE TR]].
+      constructor; cbn [f_p1 f_p2 f_ret]; unfold c2s, c2e; cbn [f_p2].
+      + exact D1'.
+      + exact I.
+      + left. split; [reflexivity|exact ER'].
+      + intro k. rewrite TS, E2, E3. apply HS.
+      + intro k. rewrite TE, E3. apply HE.
+      + apply Forall_app. split; [exact HLg|]. constructor; [exact I|constructor].
+      + apply done_logged_mono. exact L1'.
+      + exact I.
+      + rewrite TR, HN. reflexivity.
+      + intros o Ho. apply in_app_or in Ho. destruct Ho as [Ho|[Ho|[]]].
+        * apply HRe in Ho. congruence.
+        * injection Ho as <-. reflexivity.
+      + intros pre post m' k h Hsp Hk. apply app_single_split in Hsp.
+        destruct Hsp as [[_ [_ Hx]]|[post' [_ Htr]]]; [discriminate|]. eapply HEgo; eassumption.
+      + intros pre post Hsp. apply app_single_split in Hsp.
+        destruct Hsp as [[_ [_ Hx]]|[post' [_ Htr]]]; [discriminate|]. eapply HSy; eassumption.
+    - (* return nil: phase 2 starts *)
+      rewrite app_nil_r. constructor; cbn [f_p1 f_p2 f_ret]; unfold c2s, c2e; cbn [f_p2].
+      + exact D1'.
+      + split; [apply dinv_init|exact ER'].
+      + reflexivity.
+      + intro k. rewrite E2, E3, HS. reflexivity.
+      + intro k. rewrite E3, HE. reflexivity.
+      + exact HLg.
+      + exact L1'.
+      + intros k h [].
+      + exact HN.
+      + intros o Ho. apply HRe in Ho. congruence.
+      + exact HEgo.
+      + exact HSy.
+    - (* a nil received, or blocked *)
+      rewrite app_nil_r. constructor; cbn [f_p1 f_p2 f_ret]; unfold c2s, c2e; cbn [f_p2].
+      + exact D1'.
+      + exact I.
+      + exact ER'.
+      + intro k. rewrite E2, E3, HS. reflexivity.
+      + intro k. rewrite E3, HE. reflexivity.
+      + exact HLg.
+      + exact L1'.
+      + exact I.
+      + exact HN.
+      + intros o Ho. apply HRe in Ho. congruence.
+      + exact HEgo.
+      + exact HSy.
+  Qed.
+
+  (* an iteration of the collecting loop of phase 2 (incl. the return of Fund) *)
+  Lemma finv_F2_recv s tr : finv s tr ->
+    finv (fst (fstep v reg e s (F2 SRecv))) (tr ++ snd (fstep v reg e s (F2 SRecv))).
+  Proof.
+    intro IV. cbn [fstep].
+    destruct (f_ret s) as [o|] eqn:EF; [cbn [fst snd]; rewrite app_nil_r; exact IV|].
+    destruct (f_p2 s) as [p2|] eqn:EP; [|cbn [fst snd]; rewrite app_nil_r; exact IV].
+    destruct IV as [D1 D2 FR HS HE HLg L1 L2 HN HRe HEgo HSy].
+    unfold c2s, c2e in HS, HE. rewrite EP in HS, HE, FR, D2, L2. rewrite EF in FR, HN.
+    destruct D2 as [D2 R1].
+    destruct (dstep_recv_tasks MFund v p2) as [E1 [E2 [E3 E4]]].
+    pose proof (dinv_step MFund v ts2 p2 SRecv D2) as D2'.
+    set (p2' := fst (dstep MFund v p2 SRecv)) in *.
+    assert (L2' : done_logged MFund v p2' tr) by (unfold done_logged; rewrite E3; exact L2).
+    destruct (d_ret p2') as [[er|]|] eqn:ER'; cbn [fst snd].
+    - (* return err *)
+      destruct (ret_ev_tail tr (OErr er)) as [TS [TE TR]].
+      constructor; cbn [f_p1 f_p2 f_ret]; unfold c2s, c2e; cbn [f_p2].
+      + exact D1.
+      + split; [exact D2'|exact R1].
+      + right. exists p2'. split; [reflexivity|exact ER'].
+      + intro k. rewrite TS, E2, E3. apply HS.
+      + intro k. rewrite TE, E3. apply HE.
+      + apply Forall_app. split; [exact HLg|]. constructor; [exact I|constructor].
+      + apply done_logged_mono. exact L1.
+      + apply done_logged_mono. exact L2'.
+      + rewrite TR, HN. reflexivity.
+      + intros o Ho. apply in_app_or in Ho. destruct Ho as [Ho|[Ho|[]]].
+        * apply HRe in Ho. congruence.
+        * injection Ho as <-. reflexivity.
+      + intros pre post m' k h Hsp Hk. apply app_single_split in Hsp.
+        destruct Hsp as [[_ [_ Hx]]|[post' [_ Htr]]]; [discriminate|]. eapply HEgo; eassumption.
+      + intros pre post Hsp. apply app_single_split in Hsp.
+        destruct Hsp as [[_ [_ Hx]]|[post' [_ Htr]]]; [discriminate|]. eapply HSy; eassumption.
+    - (* return nil *)
+      destruct (ret_ev_tail tr OOk) as [TS [TE TR]].
+      constructor; cbn [f_p1 f_p2 f_ret]; unfold c2s, c2e; cbn [f_p2].
+      + exact D1.
+      + split; [exact D2'|exact R1].
+      + exists p2'. split; [reflexivity|exact ER'].
+      + intro k. rewrite TS, E2, E3. apply HS.
+      + intro k. rewrite TE, E3. apply HE.
+      + apply Forall_app. split; [exact HLg|]. constructor; [exact I|constructor].
+      + apply done_logged_mono. exact L1.
+      + apply done_logged_mono. exact L2'.
+      + rewrite TR, HN. reflexivity.
+      + intros o Ho. apply in_app_or in Ho. destruct Ho as [Ho|[Ho|[]]].
+        * apply HRe in Ho. congruence.
+        * injection Ho as <-. reflexivity.
+      + intros pre post m' k h Hsp Hk. apply app_single_split in Hsp.
+        destruct Hsp as [[_ [_ Hx]]|[post' [_ Htr]]]; [discriminate|]. eapply HEgo; eassumption.
+      + intros pre post Hsp. apply app_single_split in Hsp.
+        destruct Hsp as [[_ [-> _]]|[post' [_ Htr]]]; [|eapply HSy; eassumption].
+        intros k Hk. apply in_app_or in Hk. destruct Hk as [Hk|Hk].
+        * exact (e_all_ended p2' tr D2' L2' ER' k Hk).
+        * exact (ne_all_ended (f_p1 s) tr D1 L1 R1 k Hk).
+    - rewrite app_nil_r. constructor; cbn [f_p1 f_p2 f_ret]; unfold c2s, c2e; cbn [f_p2].
+      + exact D1.
+      + split; [exact D2'|exact R1].
+      + exact ER'.
+      + intro k. rewrite E2, E3. apply HS.
+      + intro k. rewrite E3. apply HE.
+      + exact HLg.
+      + exact L1.
+      + exact L2'.
+      + exact HN.
+      + intros o Ho. apply HRe in Ho. congruence.
+      + exact HEgo.
+      + exact HSy.
+  Qed.
+
+  Lemma finv_step s tr l : finv s tr ->
+    finv (fst (fstep v reg e s l)) (tr ++ snd (fstep v reg e s l)).
+  Proof.
+    intro IV. destruct l as [l|l]; destruct (dlabel_eq_recv l) as [->|NR].
+    - apply finv_F1_recv. exact IV.
+    - apply finv_F1_task; assumption.
+    - apply finv_F2_recv. exact IV.
+    - apply finv_F2_task; assumption.
+  Qed.
+
+  Lemma fund_run_inv sched :
+    finv (fst (fund_run reg v e ne sched)) (snd (fund_run reg v e ne sched)).
+  Proof.
+    unfold fund_run. apply (run_inv (fstep v reg e) finv).
+    - intros s tr l H. apply finv_step. exact H.
+    - apply finv_init.
+  Qed.
+End Funder.
+
+(* ---------- consequences for Fund ---------- *)
+
+Lemma creg_le_ts v ts s k : dinv v ts s -> creg k (d_run s ++ d_done s) <= creg k ts.
+Proof.
+  intros [HP _ _]. unfold creg. rewrite <- (countb_perm _ _ _ HP), !countb_app. apply Nat.le_add_l.
+Qed.
+
+Lemma creg_eq_ts v ts s k : dinv v ts s -> d_new s = [] -> creg k (d_run s ++ d_done s) = creg k ts.
+Proof.
+  intros [HP _ _] HN. unfold creg. rewrite <- (countb_perm _ _ _ HP), HN. reflexivity.
+Qed.
+
+Lemma kmem_ext k l1 l2 : (forall x, In x l1 <-> In x l2) -> kmem k l1 = kmem k l2.
+Proof.
+  intro H. destruct (kmem k l2) eqn:E.
+  - apply kmem_In. apply H. apply kmem_In. exact E.
+  - apply kmem_not_In. intro Hin. apply H in Hin. apply kmem_In in Hin. congruence.
+Qed.
+
+Lemma forallb_in_ext {A} (f : A -> bool) l1 l2 : (forall x, In x l1 <-> In x l2) -> forallb f l1 = forallb f l2.
+Proof.
+  intro H. destruct (forallb f l2) eqn:E.
+  - rewrite forallb_forall in *. intros x Hx. apply E. apply H. exact Hx.
+  - destruct (forallb f l1) eqn:E1; [|reflexivity]. rewrite <- E. symmetry.
+    rewrite forallb_forall in *. intros x Hx. apply E1. apply H. exact Hx.
+Qed.
+
+Section FunderResults.
+  Variable v : hid -> bool.
+  Variable reg : registry.
+  Variable ego : option Z.
+  Variable ids : list key.
+  Hypothesis ids_nodup : NoDup ids.
+  Let e := ego_sel ego ids.
+  Let ne := ego_rest ego ids.
+
+  Lemma nd_split : NoDup (e ++ ne).
+  Proof. eapply Permutation_NoDup; [symmetry; apply ego_split_perm|exact ids_nodup]. Qed.
+
+  Lemma in_split k : In k (e ++ ne) <-> In k ids.
+  Proof.
+    split; intro H.
+    - eapply Permutation_in; [apply ego_split_perm|exact H].
+    - eapply Permutation_in; [symmetry; apply ego_split_perm|exact H].
+  Qed.
+
+  Lemma creg_split k :
+    creg k (tasks_of reg ne) + creg k (tasks_of reg e) = if kmem k ids && registered reg k then 1 else 0.
+  Proof.
+    rewrite Nat.add_comm, <- creg_tasks_app, (creg_tasks_of reg (e ++ ne) k nd_split).
+    rewrite (kmem_ext k (e ++ ne) ids in_split). reflexivity.
+  Qed.
+
+  Lemma creg_only_ne k : In k ne -> creg k (tasks_of reg e) = 0.
+  Proof.
+    intro H. apply creg_zero. intros t Ht Hk. apply tasks_of_In in Ht. destruct Ht as [Ht _].
+    rewrite Hk in Ht. exact (e_ne_disjoint e ne nd_split k Ht H).
+  Qed.
+
+  Lemma creg_only_e k : In k e -> creg k (tasks_of reg ne) = 0.
+  Proof.
+    intro H. apply creg_zero. intros t Ht Hk. apply tasks_of_In in Ht. destruct Ht as [Ht _].
+    rewrite Hk in Ht. exact (e_ne_disjoint e ne nd_split k H Ht).
+  Qed.
+
+  Lemma c2s_le s tr k : finv v reg e ne s tr -> c2s k s <= creg k (tasks_of reg e).
+  Proof.
+    intros [_ D2 _ _ _ _ _ _ _ _ _ _]. unfold c2s. destruct (f_p2 s) as [p2|]; [|lia].
+    destruct D2 as [D2 _]. apply (creg_le_ts v _ p2 k D2).
+  Qed.
+
+  (* safety under every schedule, at every moment *)
+  Lemma fund_calls_safe sched s tr : fund_run reg v e ne sched = (s, tr) ->
+    (forall k, count_start k tr <= if kmem k ids && registered reg k then 1 else 0) /\
+    (forall k, count_end k tr <= count_start k tr) /\
+    Forall (ev_legit MFund reg v ids) tr.
+  Proof.
+    intro H. pose proof (fund_run_inv v reg e ne nd_split sched) as IV. rewrite H in IV. cbn [fst snd] in IV.
+    pose proof IV as [D1 D2 _ HS HE HLg _ _ _ _ _ _]. split; [|split].
+    - intro k. rewrite HS, <- creg_split.
+      pose proof (creg_le_ts v _ (f_p1 s) k D1). pose proof (c2s_le s tr k IV). lia.
+    - intro k. rewrite HS, HE. unfold c2s, c2e, creg. rewrite countb_app.
+      destruct (f_p2 s) as [p2|]; [rewrite countb_app|]; lia.
+    - eapply Forall_impl; [|exact HLg]. intros x Hx.
+      eapply ev_legit_incl; [|exact Hx]. intros k Hk. apply in_split. exact Hk.
+  Qed.
+
+  (* phase 2 was started iff phase 1 returned nil, i.e. all other ledgers are registered and succeeded *)
+  Lemma p2_started_ok s tr p2 : finv v reg e ne s tr -> f_p2 s = Some p2 ->
+    forallb (ledger_ok reg v) ne = true.
+  Proof.
+    intros [D1 D2 _ _ _ _ _ _ _ _ _ _] EP. rewrite EP in D2. destruct D2 as [_ R1].
+    destruct (dinv_ret_ok v _ (f_p1 s) D1 R1) as [_ [_ [_ [_ HA]]]].
+    apply (all_ok_iff v reg ne). exact HA.
+  Qed.
+
+  Lemma p2_not_started_failed s tr : finv v reg e ne s tr -> f_p2 s = None -> f_ret s <> None ->
+    forallb (ledger_ok reg v) ne = false.
+  Proof.
+    intros [D1 _ FR _ _ _ _ _ _ _ _ _] EP HR. destruct (f_ret s) as [o|]; [|congruence].
+    destruct o as [| | |er|]; try contradiction.
+    - destruct FR as [p2 [Hp _]]. congruence.
+    - destruct FR as [[_ R1]|[p2 [Hp _]]]; [|congruence].
+      destruct (dinv_ret_err v _ (f_p1 s) er D1 R1) as [t [Ht [_ He]]].
+      apply (failing_not_ok v reg ne er). exact (tres_failing v reg ne t er Ht He).
+  Qed.
+
+  (* exact counts once everything has finished *)
+  Lemma fund_calls_exact sched s tr : fund_run reg v e ne sched = (s, tr) -> f_complete s ->
+    (forall k, In k ne -> count_start k tr = if registered reg k then 1 else 0) /\
+    (forall k, In k e -> count_start k tr = if registered reg k && forallb (ledger_ok reg v) ne then 1 else 0) /\
+    (forall k, ~ In k ids -> count_start k tr = 0) /\
+    (forall k, count_end k tr = count_start k tr).
+  Proof.
+    intros H [CR [CN1 [CR1 C2]]].
+    pose proof (fund_run_inv v reg e ne nd_split sched) as IV. rewrite H in IV. cbn [fst snd] in IV.
+    pose proof IV as [D1 D2 _ HS HE _ _ _ _ _ _ _]. repeat split.
+    - intros k Hk. rewrite HS. rewrite (creg_eq_ts v _ (f_p1 s) k D1 CN1).
+      pose proof (c2s_le s tr k IV) as H2. rewrite (creg_only_ne k Hk) in H2.
+      pose proof (creg_split k) as H3. rewrite (creg_only_ne k Hk) in H3.
+      assert (HM : kmem k ids = true) by (apply kmem_In, in_split, in_or_app; right; exact Hk).
+      rewrite HM in H3. cbn [andb] in H3. lia.
+    - intros k Hk. rewrite HS.
+      pose proof (creg_le_ts v _ (f_p1 s) k D1) as H1. rewrite (creg_only_e k Hk) in H1.
+      pose proof (creg_split k) as H3. rewrite (creg_only_e k Hk) in H3.
+      assert (HM : kmem k ids = true) by (apply kmem_In, in_split, in_or_app; left; exact Hk).
+      rewrite HM in H3. cbn [andb] in H3.
+      unfold c2s. destruct (f_p2 s) as [p2|] eqn:EP.
+      + rewrite (p2_started_ok s tr p2 IV EP), andb_true_r. destruct D2 as [D2 _]. destruct C2 as [CN2 _].
+        rewrite (creg_eq_ts v _ p2 k D2 CN2). lia.
+      + rewrite (p2_not_started_failed s tr IV EP CR), andb_false_r. lia.
+    - intros k Hk. pose proof (fund_calls_safe sched s tr H) as [HSafe _]. specialize (HSafe k).
+      assert (HM : kmem k ids = false) by (apply kmem_not_In; exact Hk). rewrite HM in HSafe.
+      cbn [andb] in HSafe. lia.
+    - intro k. rewrite HS, HE, CR1. cbn [app]. unfold c2s, c2e.
+      destruct (f_p2 s) as [p2|]; [|reflexivity]. destruct C2 as [_ CR2]. rewrite CR2. reflexivity.
+  Qed.
+
+  (* the result under every schedule *)
+  Lemma fund_result sched s tr o : fund_run reg v e ne sched = (s, tr) -> f_ret s = Some o ->
+    (o = OOk <-> forallb (ledger_ok reg v) ids = true) /\
+    (forall er, o = OErr er -> failing reg v ids er) /\
+    (o = OOk \/ exists er, o = OErr er).
+  Proof.
+    intros H ER.
+    pose proof (fund_run_inv v reg e ne nd_split sched) as IV. rewrite H in IV. cbn [fst snd] in IV.
+    pose proof IV as [D1 D2 FR _ _ _ _ _ _ _ _ _]. rewrite ER in FR.
+    rewrite <- (forallb_in_ext (ledger_ok reg v) (e ++ ne) ids in_split), forallb_app.
+    destruct o as [| | |er|]; try contradiction.
+    - destruct FR as [p2 [EP R2]]. rewrite EP in D2. destruct D2 as [D2 R1].
+      destruct (dinv_ret_ok v _ p2 D2 R2) as [_ [_ [_ [_ HA2]]]].
+      apply (all_ok_iff v reg e) in HA2. rewrite HA2, (p2_started_ok s tr p2 IV EP).
+      split; [split; reflexivity|]. split; [discriminate|left; reflexivity].
+    - assert (HF : failing reg v (e ++ ne) er).
+      { destruct FR as [[EP R1]|[p2 [EP R2]]].
+        - destruct (dinv_ret_err v _ (f_p1 s) er D1 R1) as [t [Ht [_ He]]].
+          apply (failing_incl reg v ne); [apply incl_appr, incl_refl|].
+          exact (tres_failing v reg ne t er Ht He).
+        - rewrite EP in D2. destruct D2 as [D2 _].
+          destruct (dinv_ret_err v _ p2 er D2 R2) as [t [Ht [_ He]]].
+          apply (failing_incl reg v e); [apply incl_appl, incl_refl|].
+          exact (tres_failing v reg e t er Ht He). }
+      split; [|split].
+      + split; [discriminate|]. intro HA. rewrite <- forallb_app in HA.
+        rewrite (failing_not_ok v reg (e ++ ne) er HF) in HA. discriminate.
+      + intros er' Her. injection Her as <-.
+        eapply failing_incl; [|exact HF]. intros k Hk. apply in_split. exact Hk.
+      + right. exists er. reflexivity.
+  Qed.
+
+  (* the selected ledger's funder is entered only after the funders of all other ledgers have returned nil *)
+  Lemma fund_ego_order sched s tr : fund_run reg v e ne sched = (s, tr) ->
+    forall pre post m' k h, tr = pre ++ EStart m' k h :: post -> In k e ->
+    forall k', In k' ne -> exists h', reg_lookup reg k' = Some h' /\ v h' = true /\ In (EEnd MFund k' h' true) pre.
+  Proof.
+    intro H. pose proof (fund_run_inv v reg e ne nd_split sched) as IV. rewrite H in IV. cbn [fst snd] in IV.
+    destruct IV as [_ _ _ _ _ _ _ _ _ _ HEgo _]. intros pre post m' k h Hsp Hk. exact (HEgo pre post m' k h Hsp Hk).
+  Qed.
+
+  Lemma fund_ok_after_all sched s tr : fund_run reg v e ne sched = (s, tr) ->
+    forall pre post, tr = pre ++ ERet OOk :: post ->
+    forall k, In k ids -> exists h, reg_lookup reg k = Some h /\ v h = true /\ In (EEnd MFund k h true) pre.
+  Proof.
+    intro H. pose proof (fund_run_inv v reg e ne nd_split sched) as IV. rewrite H in IV. cbn [fst snd] in IV.
+    destruct IV as [_ _ _ _ _ _ _ _ _ _ _ HSy]. intros pre post Hsp k Hk.
+    apply (HSy pre post Hsp k). apply in_split. exact Hk.
+  Qed.
+
+  Lemma fund_ret_event sched s tr : fund_run reg v e ne sched = (s, tr) ->
+    countb is_ret tr = (if f_ret s then 1 else 0) /\ (forall o, In (ERet o) tr -> f_ret s = Some o).
+  Proof.
+    intro H. pose proof (fund_run_inv v reg e ne nd_split sched) as IV. rewrite H in IV. cbn [fst snd] in IV.
+    destruct IV as [_ _ _ _ _ _ _ _ HN HR _ _]. split; assumption.
+  Qed.
+End FunderResults.
+
+(* ---------- statements over asset lists (used by Props/C20.v) ---------- *)
+
+Lemma ids_keys_in a ids : ledger_ids a = Ok ids -> forall k, In k ids <-> In k (asset_keys a).
+Proof.
+  intros H k. destruct (ledger_ids_spec a ids H) as [_ [HI _]]. rewrite HI, asset_keys_In. reflexivity.
+Qed.
+
+Lemma ids_all_ok a ids reg v : ledger_ids a = Ok ids ->
+  (forallb (ledger_ok reg v) ids = true <-> all_ledgers_ok a reg v).
+Proof.
+  intro H. destruct (ledger_ids_spec a ids H) as [_ [HI _]]. rewrite forallb_forall. unfold all_ledgers_ok.
+  split; intros HA k Hk; apply HA; apply HI; exact Hk.
+Qed.
+
+Lemma calls_expected_ids a ids reg k : ledger_ids a = Ok ids ->
+  (if kmem k ids && registered reg k then 1 else 0) = calls_expected a reg k.
+Proof.
+  intro H. unfold calls_expected. rewrite (kmem_ext k ids (asset_keys a) (ids_keys_in a ids H)). reflexivity.
+Qed.
+
+Lemma legit_keys m reg v a ids tr : ledger_ids a = Ok ids ->
+  Forall (ev_legit m reg v ids) tr -> Forall (ev_legit m reg v (asset_keys a)) tr.
+Proof.
+  intros H HF. eapply Forall_impl; [|exact HF]. intros x Hx. eapply ev_legit_incl; [|exact Hx].
+  intros k Hk. apply (ids_keys_in a ids H). exact Hk.
+Qed.
+
+Lemma c20_adj_calls m reg v a ids sched s tr :
+  ledger_ids a = Ok ids -> adj_run m reg v ids sched = (s, tr) ->
+  (forall k, count_start k tr <= calls_expected a reg k) /\
+  (forall k, count_end k tr <= count_start k tr) /\
+  Forall (ev_legit m reg v (asset_keys a)) tr /\
+  (d_complete s -> forall k, count_start k tr = calls_expected a reg k /\ count_end k tr = calls_expected a reg k).
+Proof.
+  intros H HR. destruct (ledger_ids_spec a ids H) as [ND _].
+  destruct (adj_calls_safe m v reg ids ND sched s tr HR) as [H1 [H2 H3]]. repeat split.
+  - intro k. rewrite <- (calls_expected_ids a ids reg k H). apply H1.
+  - exact H2.
+  - exact (legit_keys m reg v a ids tr H H3).
+  - rewrite <- (calls_expected_ids a ids reg k H). apply (adj_calls_exact m v reg ids ND sched s tr HR H0 k).
+  - rewrite <- (calls_expected_ids a ids reg k H). apply (adj_calls_exact m v reg ids ND sched s tr HR H0 k).
+Qed.
+
+Lemma c20_adj_result m reg v a ids sched s tr r :
+  ledger_ids a = Ok ids -> adj_run m reg v ids sched = (s, tr) -> d_ret s = Some r ->
+  (r = None <-> all_ledgers_ok a reg v) /\
+  (forall e, r = Some e -> failing reg v (asset_keys a) e).
+Proof.
+  intros H HR ER. destruct (adj_result m v reg ids sched s tr HR r ER) as [H1 H2]. split.
+  - rewrite H1. apply ids_all_ok. exact H.
+  - intros e He. eapply failing_incl; [|exact (H2 e He)]. intros k Hk. apply (ids_keys_in a ids H). exact Hk.
+Qed.
+
+Lemma c20_adj_order_independent m reg v a ids sched1 sched2 s1 tr1 s2 tr2 :
+  ledger_ids a = Ok ids ->
+  adj_run m reg v ids sched1 = (s1, tr1) -> adj_run m reg v ids sched2 = (s2, tr2) ->
+  d_complete s1 -> d_complete s2 ->
+  (d_ret s1 = Some None <-> d_ret s2 = Some None) /\
+  (forall k, count_start k tr1 = count_start k tr2 /\ count_end k tr1 = count_end k tr2).
+Proof.
+  intros H R1 R2 C1 C2. split.
+  - destruct C1 as [_ [_ N1]], C2 as [_ [_ N2]].
+    destruct (d_ret s1) as [r1|] eqn:E1; [|congruence]. destruct (d_ret s2) as [r2|] eqn:E2; [|congruence].
+    destruct (c20_adj_result m reg v a ids sched1 s1 tr1 r1 H R1 E1) as [A1 _].
+    destruct (c20_adj_result m reg v a ids sched2 s2 tr2 r2 H R2 E2) as [A2 _].
+    split; intro HH; injection HH as ->; f_equal; [apply A2, A1|apply A1, A2]; reflexivity.
+  - intro k. destruct (c20_adj_calls m reg v a ids sched1 s1 tr1 H R1) as [_ [_ [_ X1]]].
+    destruct (c20_adj_calls m reg v a ids sched2 s2 tr2 H R2) as [_ [_ [_ X2]]].
+    destruct (X1 C1 k) as [-> ->]. destruct (X2 C2 k) as [-> ->]. split; reflexivity.
+Qed.
+
+Lemma c20_adj_ok_after_all m reg v a ids sched s tr :
+  ledger_ids a = Ok ids -> adj_run m reg v ids sched = (s, tr) ->
+  forall pre post, tr = pre ++ ERet OOk :: post ->
+  forall k, In (AMulti k) a -> exists h, reg_lookup reg k = Some h /\ v h = true /\ In (EEnd m k h true) pre.
+Proof.
+  intros H HR pre post Hsp k Hk. destruct (ledger_ids_spec a ids H) as [_ [HI _]].
+  apply (adj_ok_after_all m v reg ids sched s tr HR pre post Hsp k). apply HI. exact Hk.
+Qed.
+
+(* the exported methods in terms of the runs *)
+Lemma adj_call_run m reg v a ids sched : ledger_ids a = Ok ids ->
+  adj_call m reg v a sched =
+  (snd (adj_run m reg v ids sched), option_map out_of (d_ret (fst (adj_run m reg v ids sched)))).
+Proof. intro H. unfold adj_call. rewrite H. destruct (adj_run m reg v ids sched). reflexivity. Qed.
+
+Lemma adj_call_no_ids m reg v a sched : (forall ids, ledger_ids a <> Ok ids) ->
+  exists o, adj_call m reg v a sched = ([ERet o], Some o) /\ (o = OErrAsset \/ o = OPanic).
+Proof.
+  intro H. unfold adj_call. destruct (ledger_ids a) as [ids| |].
+  - exfalso. apply (H ids). reflexivity.
+  - exists OErrAsset. auto.
+  - exists OPanic. auto.
+Qed.
+
+Lemma fund_call_run reg ego v a ids sched : ledger_ids a = Ok ids ->
+  fund_call reg ego false v a sched =
+  (snd (fund_run reg v (ego_sel ego ids) (ego_rest ego ids) sched),
+   f_ret (fst (fund_run reg v (ego_sel ego ids) (ego_rest ego ids) sched))).
+Proof.
+  intro H. unfold fund_call. rewrite H, fund_split_spec.
+  destruct (fund_run reg v (ego_sel ego ids) (ego_rest ego ids) sched). reflexivity.
+Qed.
+
+Lemma fund_call_no_ids reg ego too_long v a sched : too_long = true \/ (forall ids, ledger_ids a <> Ok ids) ->
+  exists o, fund_call reg ego too_long v a sched = ([ERet o], Some o) /\ (o = OErrDuration \/ o = OErrAsset \/ o = OPanic).
+Proof.
+  intro H. unfold fund_call. destruct too_long; [exists OErrDuration; auto|].
+  destruct H as [H|H]; [discriminate|]. destruct (ledger_ids a) as [ids| |].
+  - exfalso. apply (H ids). reflexivity.
+  - exists OErrAsset. auto.
+  - exists OPanic. auto.
+Qed.
+
+Lemma c20_fund_calls reg ego v a ids sched s tr :
+  ledger_ids a = Ok ids -> fund_run reg v (ego_sel ego ids) (ego_rest ego ids) sched = (s, tr) ->
+  (forall k, count_start k tr <= calls_expected a reg k) /\
+  (forall k, count_end k tr <= count_start k tr) /\
+  Forall (ev_legit MFund reg v (asset_keys a)) tr /\
+  (f_complete s ->
+     (forall k, In k (ego_rest ego ids) -> count_start k tr = if registered reg k then 1 else 0) /\
+     (forall k, In k (ego_sel ego ids) ->
+        count_start k tr = if registered reg k && forallb (ledger_ok reg v) (ego_rest ego ids) then 1 else 0) /\
+     (forall k, ~ In (AMulti k) a -> count_start k tr = 0) /\
+     (forall k, count_end k tr = count_start k tr)).
+Proof.
+  intros H HR. destruct (ledger_ids_spec a ids H) as [ND [HI _]].
+  destruct (fund_calls_safe v reg ego ids ND sched s tr HR) as [H1 [H2 H3]]. split; [|split; [|split]].
+  - intro k. rewrite <- (calls_expected_ids a ids reg k H). apply H1.
+  - exact H2.
+  - exact (legit_keys MFund reg v a ids tr H H3).
+  - intro C. destruct (fund_calls_exact v reg ego ids ND sched s tr HR C) as [X1 [X2 [X3 X4]]].
+    split; [exact X1|]. split; [exact X2|]. split; [|exact X4].
+    intros k Hk. apply X3. intro Hin. apply Hk. apply HI. exact Hin.
+Qed.
+
+Lemma c20_fund_result reg ego v a ids sched s tr o :
+  ledger_ids a = Ok ids -> fund_run reg v (ego_sel ego ids) (ego_rest ego ids) sched = (s, tr) ->
+  f_ret s = Some o ->
+  (o = OOk <-> all_ledgers_ok a reg v) /\
+  (forall er, o = OErr er -> failing reg v (asset_keys a) er) /\
+  (o = OOk \/ exists er, o = OErr er).
+Proof.
+  intros H HR ER. destruct (ledger_ids_spec a ids H) as [ND _].
+  destruct (fund_result v reg ego ids ND sched s tr o HR ER) as [H1 [H2 H3]]. split; [|split].
+  - rewrite H1. apply ids_all_ok. exact H.
+  - intros er He. eapply failing_incl; [|exact (H2 er He)]. intros k Hk. apply (ids_keys_in a ids H). exact Hk.
+  - exact H3.
+Qed.
+
+Lemma c20_fund_order_independent reg ego v a ids sched1 sched2 s1 tr1 s2 tr2 :
+  ledger_ids a = Ok ids ->
+  fund_run reg v (ego_sel ego ids) (ego_rest ego ids) sched1 = (s1, tr1) ->
+  fund_run reg v (ego_sel ego ids) (ego_rest ego ids) sched2 = (s2, tr2) ->
+  f_complete s1 -> f_complete s2 ->
+  (f_ret s1 = Some OOk <-> f_ret s2 = Some OOk) /\
+  (forall k, count_start k tr1 = count_start k tr2 /\ count_end k tr1 = count_end k tr2).
+Proof.
+  intros H R1 R2 C1 C2. split.
+  - destruct C1 as [N1 _], C2 as [N2 _].
+    destruct (f_ret s1) as [o1|] eqn:E1; [|congruence]. destruct (f_ret s2) as [o2|] eqn:E2; [|congruence].
+    destruct (c20_fund_result reg ego v a ids sched1 s1 tr1 o1 H R1 E1) as [A1 _].
+    destruct (c20_fund_result reg ego v a ids sched2 s2 tr2 o2 H R2 E2) as [A2 _].
+    split; intro HH; injection HH as ->; f_equal; [apply A2, A1|apply A1, A2]; reflexivity.
+  - destruct (ledger_ids_spec a ids H) as [ND [HI _]].
+    destruct (fund_calls_exact v reg ego ids ND sched1 s1 tr1 R1 C1) as [X1 [X2 [X3 X4]]].
+    destruct (fund_calls_exact v reg ego ids ND sched2 s2 tr2 R2 C2) as [Y1 [Y2 [Y3 Y4]]].
+    intro k. rewrite X4, Y4. assert (E : count_start k tr1 = count_start k tr2); [|split; exact E].
+    destruct (in_dec key_dec k ids) as [Hin|Hout].
+    + apply (in_split ego ids) in Hin. apply in_app_or in Hin. destruct Hin as [Hin|Hin].
+      * rewrite (X2 k Hin), (Y2 k Hin). reflexivity.
+      * rewrite (X1 k Hin), (Y1 k Hin). reflexivity.
+    + rewrite (X3 k Hout), (Y3 k Hout). reflexivity.
+Qed.
+
+Lemma c20_egoistic_order reg ego v a ids sched s tr :
+  ledger_ids a = Ok ids -> fund_run reg v (ego_sel ego ids) (ego_rest ego ids) sched = (s, tr) ->
+  forall pre post m' k h, tr = pre ++ EStart m' k h :: post -> In k (ego_sel ego ids) ->
+  forall k', In k' (ego_rest ego ids) ->
+  exists h', reg_lookup reg k' = Some h' /\ v h' = true /\ In (EEnd MFund k' h' true) pre.
+Proof.
+  intros H HR. destruct (ledger_ids_spec a ids H) as [ND _].
+  exact (fund_ego_order v reg ego ids ND sched s tr HR).
+Qed.
+
+Lemma c20_fund_ok_after_all reg ego v a ids sched s tr :
+  ledger_ids a = Ok ids -> fund_run reg v (ego_sel ego ids) (ego_rest ego ids) sched = (s, tr) ->
+  forall pre post, tr = pre ++ ERet OOk :: post ->
+  forall k, In (AMulti k) a -> exists h, reg_lookup reg k = Some h /\ v h = true /\ In (EEnd MFund k h true) pre.
+Proof.
+  intros H HR pre post Hsp k Hk. destruct (ledger_ids_spec a ids H) as [ND [HI _]].
+  apply (fund_ok_after_all v reg ego ids ND sched s tr HR pre post Hsp k). apply HI. exact Hk.
+Qed.
+
+(* the selected ledger: position x of the distinct ledger ids, if there is one *)
+Lemma c20_ego_sel ego ids :
+  fund_split ego ids = (ego_sel ego ids, ego_rest ego ids) /\
+  Permutation (ego_sel ego ids ++ ego_rest ego ids) ids /\
+  (forall x, ego = Some x -> (0 <= x)%Z -> forall k, nth_error ids (Z.to_nat x) = Some k -> ego_sel ego ids = [k]) /\
+  (ego = None -> ego_sel ego ids = [] /\ ego_rest ego ids = ids).
+Proof.
+  split; [apply fund_split_spec|]. split; [apply ego_split_perm|]. split.
+  - intros x -> Hx k Hk. cbn [ego_sel]. assert (E : (0 <=? x)%Z = true) by lia. rewrite E, Hk. reflexivity.
+  - intros ->. split; reflexivity.
+Qed.
+
+(* ---------- non-vacuity: concrete runs ---------- *)
+
+Definition ex_ka : key := (1%N, "eth"%string).
+Definition ex_kb : key := (1%N, "dot"%string).
+Definition ex_kc : key := (2%N, "eth"%string).    (* same ledger string, other backend: a different ledger *)
+Definition ex_kd : key := (7%N, "x"%string).      (* never registered *)
+(* b is registered twice: the later registration (handler 12) wins *)
+Definition ex_reg : registry := reg_of_ops [(ex_ka, 10%N); (ex_kb, 11%N); (ex_kb, 12%N); (ex_kc, 13%N)].
+Definition ex_assets := [AMulti ex_kb; AMulti ex_ka; AMulti ex_kb; AMulti ex_kc; AMulti ex_ka].
+Definition ex_ids := [ex_kb; ex_ka; ex_kc].
+Definition ex_v_ok (h : hid) : bool := true.
+Definition ex_v_fail (h : hid) : bool := negb (N.eqb h 10%N).     (* the call on ledger a fails *)
+(* an interleaving that is not the canonical one: c is started late, returns are out of order *)
+Definition ex_sched : list dlabel :=
+  [SGo ex_ka; SGo ex_kb; SFin ex_kb; SRecv; SGo ex_kc; SFin ex_kc; SFin ex_ka; SRecv; SRecv; SRecv; SRecv].
+
+Example ex_ledger_ids : ledger_ids ex_assets = Ok ex_ids.
+Proof. vm_compute. reflexivity. Qed.
+
+Example ex_adj_complete_ok :
+  d_completeb (fst (adj_run MRegister ex_reg ex_v_ok ex_ids ex_sched)) = true /\
+  d_ret (fst (adj_run MRegister ex_reg ex_v_ok ex_ids ex_sched)) = Some None.
+Proof. vm_compute. split; reflexivity. Qed.
+
+Example ex_adj_complete_fail :
+  d_completeb (fst (adj_run MWithdraw ex_reg ex_v_fail ex_ids ex_sched)) = true /\
+  d_ret (fst (adj_run MWithdraw ex_reg ex_v_fail ex_ids ex_sched)) = Some (Some (ECall 10%N)).
+Proof. vm_compute. split; reflexivity. Qed.
+
+(* an unregistered ledger among the assets: the other ledgers are still called *)
+Example ex_adj_unregistered :
+  let a := ex_assets ++ [AMulti ex_kd] in
+  let r := adj_run MProgress ex_reg ex_v_ok (ex_ids ++ [ex_kd]) (canon_sched (ex_ids ++ [ex_kd]) ex_ids) in
+  ledger_ids a = Ok (ex_ids ++ [ex_kd]) /\ d_completeb (fst r) = true /\
+  d_ret (fst r) = Some (Some (ENotFound ex_kd)) /\
+  count_start ex_ka (snd r) = 1 /\ count_start ex_kb (snd r) = 1 /\ count_start ex_kc (snd r) = 1 /\
+  count_start ex_kd (snd r) = 0.
+Proof. vm_compute. repeat split; reflexivity. Qed.
+
+Lemma d_completeb_true s : d_completeb s = true -> d_complete s.
+Proof.
+  unfold d_completeb, d_complete. destruct (d_new s); [|discriminate]. destruct (d_run s); [|discriminate].
+  destruct (d_ret s); [|discriminate]. intros _. repeat split; discriminate.
+Qed.
+
+Lemma f_completeb_true s : f_completeb s = true -> f_complete s.
+Proof.
+  unfold f_completeb, f_complete. destruct (f_ret s); [|discriminate].
+  destruct (d_new (f_p1 s)); [|discriminate]. destruct (d_run (f_p1 s)); [|discriminate].
+  destruct (f_p2 s) as [p2|].
+  - destruct (d_new p2); [|discriminate]. destruct (d_run p2); [|discriminate]. intros _.
+    repeat split; discriminate.
+  - intros _. repeat split; discriminate.
+Qed.
+
+(* egoistic funding on position 1 (= ledger a) of the distinct ids [b; a; c] *)
+Definition ex_ego : option Z := Some 1%Z.
+Definition ex_fsched : list flabel := canon_fsched ex_ids [ex_kc; ex_kb; ex_ka].
+
+Example ex_fund_split : fund_split ex_ego ex_ids = ([ex_ka], [ex_kb; ex_kc]).
+Proof. vm_compute. reflexivity. Qed.
+
+Example ex_fund_ok :
+  let r := fund_run ex_reg ex_v_ok (ego_sel ex_ego ex_ids) (ego_rest ex_ego ex_ids) ex_fsched in
+  f_completeb (fst r) = true /\ f_ret (fst r) = Some OOk /\
+  snd r = [EStart MFund ex_kb 12%N; EStart MFund ex_kc 13%N] ++
+          [EEnd MFund ex_kc 13%N true; EEnd MFund ex_kb 12%N true] ++
+          EStart MFund ex_ka 10%N :: [EEnd MFund ex_ka 10%N true; ERet OOk].
+Proof. vm_compute. repeat split; reflexivity. Qed.
+
+(* a non-egoistic ledger fails: the selected ledger is never funded *)
+Example ex_fund_fail :
+  let v := fun h => negb (N.eqb h 13%N) in
+  let r := fund_run ex_reg v (ego_sel ex_ego ex_ids) (ego_rest ex_ego ex_ids) ex_fsched in
+  f_completeb (fst r) = true /\ f_ret (fst r) = Some (OErr (ECall 13%N)) /\
+  count_start ex_ka (snd r) = 0 /\ count_start ex_kb (snd r) = 1 /\ count_start ex_kc (snd r) = 1.
+Proof. vm_compute. repeat split; reflexivity. Qed.
